@@ -40,7 +40,11 @@ type Case struct {
 	// To: the operand pair given to the op (absolute endpoint, or offset when Rel).
 	To     [2]ops.F32 `json:"to"`
 	Family string     `json:"family"`
-	Want   *Expect    `json:"want,omitempty"` // constructive expectation; nil => independent F.6.5
+	// Earlier: the same Renderer first drew the same arc with the viewBox and
+	// all coordinates moved by this many whole units (the same picture in
+	// pixel space, another coordinate system).
+	Earlier [2]int  `json:"earlier_shift,omitempty"`
+	Want    *Expect `json:"want,omitempty"` // constructive expectation; nil => independent F.6.5
 }
 
 // svgCenter is SVG 1.1 implementation note F.6.5 with the F.6.6 radii
@@ -96,9 +100,30 @@ func checkArc(c Case) error {
 
 	rr := &rast.Recorder{NoLattice: true}
 	var z render.Renderer
+	var earlierEnd [2]float32
+	if c.Earlier != [2]int{} {
+		// the same arc backwards, so that it ends where the case's arc starts
+		dx, dy := float32(c.Earlier[0]), float32(c.Earlier[1])
+		ex, ey := float32(c.To[0]), float32(c.To[1])
+		if c.Rel {
+			ex, ey = float32(c.Start[0])+ex, float32(c.Start[1])+ey
+		}
+		z.SetRasterizer(rr, rect)
+		z.Reset(gen.VB([4]float32{vb[0] + dx, vb[1] + dy, vb[2] + dx, vb[3] + dy}), ivg.DefaultPalette)
+		z.StartPath(0, ex+dx, ey+dy)
+		z.AbsArcTo(float32(c.RX), float32(c.RY), float32(c.Rot), c.LargeArc, !c.Sweep, float32(c.Start[0])+dx, float32(c.Start[1])+dy)
+		if n := len(rr.Calls); n > 0 && rr.Calls[n-1].K == rast.CubeTo {
+			earlierEnd = [2]float32{rr.Calls[n-1].F[4], rr.Calls[n-1].F[5]}
+		}
+		z.ClosePathEndPath()
+		rr.Calls = rr.Calls[:0]
+	}
 	z.SetRasterizer(rr, rect)
 	z.Reset(gen.VB(vb), ivg.DefaultPalette)
 	z.StartPath(0, float32(c.Start[0]), float32(c.Start[1]))
+	if n := len(rr.Calls); c.Earlier != [2]int{} && n > 0 && rr.Calls[n-1].K == rast.MoveTo && rr.Calls[n-1].F[0] == earlierEnd[0] && rr.Calls[n-1].F[1] == earlierEnd[1] {
+		earlierCoincides++
+	}
 	kind := ops.AbsArcTo
 	if c.Rel {
 		kind = ops.RelArcTo
@@ -260,10 +285,10 @@ func checkArc(c Case) error {
 	return nil
 }
 
-var illConditionedCount, halfTurnExact int64
+var illConditionedCount, halfTurnExact, earlierCoincides int64
 var illByFamily = map[string]int64{}
 
-var subArc = harness.Define("arc", "elliptical-arc operations (constructive: centre, radii 0.5-60, rotation, theta1, delta => endpoints and flags; undersized radii with delta=+-pi; zero/negative radii; direct random checked against an independent F.6.5) in absolute and relative form under any viewBox->rectangle map: <= 4 cubics, start at pen, end at mapped endpoint, 9 samples per cubic on the ellipse (1e-3), parameter monotone in the sweep direction with the right extent, zero radius => one LineTo to the mapped endpoint; non-trivial = rotated non-circular ellipse under a non-uniform or off-origin map, or scale-up, or zero radius", checkArc)
+var subArc = harness.Define("arc", "elliptical-arc operations (constructive: centre, radii 0.5-60, rotation, theta1, delta => endpoints and flags; undersized radii with delta=+-pi; exact half turns; nearly closed ellipses (delta within 1e-1..3e-5 of a full turn); zero/negative radii; on a fresh Renderer or on one that just drew the reverse arc in a shifted viewBox, ending on the same pixel; direct random checked against an independent F.6.5) in absolute and relative form under any viewBox->rectangle map: <= 4 cubics, start at pen, end at mapped endpoint, 9 samples per cubic on the ellipse (1e-3), parameter monotone in the sweep direction with the right extent, zero radius => one LineTo to the mapped endpoint; non-trivial = rotated non-circular ellipse under a non-uniform or off-origin map, or scale-up, or zero radius", checkArc)
 
 func genMap(t *rapid.T, c *Case) {
 	vb := [4]float32{-32, -32, 32, 32}
@@ -302,7 +327,7 @@ func genConstructive(t *rapid.T) Case {
 	rot := float64(float32(genRot(t)))
 	phi := 2 * math.Pi * rot
 	th1 := rapid.Float64Range(0, 2*math.Pi).Draw(t, "theta1")
-	family := rapid.SampledFrom([]string{"fits", "fits", "fits", "undersized", "exact-fit"}).Draw(t, "family")
+	family := rapid.SampledFrom([]string{"fits", "fits", "fits", "undersized", "exact-fit", "near-full"}).Draw(t, "family")
 	if family == "exact-fit" {
 		// radii that span the chord exactly (a half turn; what a circle drawn as
 		// two arcs uses): values on a coarse grid so that the fit is exact or
@@ -329,6 +354,9 @@ func genConstructive(t *rapid.T) Case {
 		}
 	} else if family == "exact-fit" {
 		delta = math.Pi
+	} else if family == "near-full" {
+		// almost the whole ellipse: the end point nearly closes it (a full circle drawn as one arc)
+		delta = 2*math.Pi - math.Pow(10, -rapid.Float64Range(1, 4.5).Draw(t, "gap"))
 	} else {
 		delta = math.Pi
 		k = rapid.Float64Range(0.05, 0.95).Draw(t, "shrink")
@@ -453,7 +481,7 @@ func classify(c Case) (bool, []string) {
 	if c.Want != nil {
 		labels = append(labels, "constructive-expectation")
 	}
-	nt := rotated && nonCircular && (nonUniform || offOrigin) || c.Family == "undersized" || c.Family == "exact-fit" || c.Family == "direct-scale-up" || c.Family == "zero-radius"
+	nt := rotated && nonCircular && (nonUniform || offOrigin) || c.Family == "undersized" || c.Family == "exact-fit" || c.Family == "near-full" || c.Family == "direct-scale-up" || c.Family == "zero-radius"
 	return nt, labels
 }
 
@@ -468,7 +496,13 @@ func TestArcs(t *testing.T) {
 		default:
 			c = genConstructive(t)
 		}
+		if rapid.IntRange(0, 3).Draw(t, "earlier") == 0 {
+			c.Earlier = [2]int{rapid.IntRange(-40, 40).Draw(t, "edx"), rapid.IntRange(-40, 40).Draw(t, "edy")}
+		}
 		nt, labels := classify(c)
+		if c.Earlier != [2]int{} {
+			labels = append(labels, "renderer-drew-the-reverse-arc-in-a-shifted-viewbox-before")
+		}
 		subArc.See(c, nt, harness.HashJSON(c), labels...)
 		if c.Family == "construction-mismatch" {
 			t.Fatalf("harness: constructed ellipse and F.6.5 disagree for %+v", c)
@@ -476,6 +510,7 @@ func TestArcs(t *testing.T) {
 		subArc.Run(t, c)
 	})
 	subArc.Label("ellipse-clauses-skipped:ill-conditioned-under-float32-pen", illConditionedCount)
+	subArc.Label("earlier-arc-of-the-same-renderer-ended-on-the-bit-identical-pixel", earlierCoincides)
 	subArc.Label("exact-half-turn-checked-against-chord-midpoint-ellipse", halfTurnExact)
 	for f, n := range illByFamily {
 		subArc.Label("ill-conditioned:family="+f, n)
